@@ -384,3 +384,307 @@ func valueLabel(v ssa.Value) string {
 }
 
 var _ = sort.Strings
+
+// ---- sender: what counts as "the destination already has it" ----
+
+// backwardCalls: backward slice that also continues through the arguments of calls.
+func backwardCalls(v ssa.Value) map[ssa.Value]bool {
+	set := map[ssa.Value]bool{}
+	var work []ssa.Value
+	push := func(x ssa.Value) {
+		if x != nil && !set[x] {
+			work = append(work, x)
+		}
+	}
+	push(v)
+	for len(work) > 0 {
+		x := work[len(work)-1]
+		work = work[:len(work)-1]
+		for y := range backward(x, nil) {
+			if set[y] {
+				continue
+			}
+			set[y] = true
+			if c, ok := y.(*ssa.Call); ok {
+				for _, a := range c.Call.Args {
+					push(a)
+				}
+			}
+			// range over a slice/map: the Next tuple comes from the Range of the collection
+			if n, ok := y.(*ssa.Next); ok {
+				push(n.Iter)
+			}
+			if rg, ok := y.(*ssa.Range); ok {
+				push(rg.X)
+			}
+		}
+	}
+	return set
+}
+
+// objectPushKind classifies list pushes of pkg/api/utils.object values by their
+// constant Type field ("ObjectTable", …; "" when c is not such a push).
+func objectPushKind(p *Program) (func(ci ssa.CallInstruction) string, error) {
+	typeField, err := p.Field("pkg/api/utils.object.Type")
+	if err != nil {
+		return nil, err
+	}
+	objT, err := p.NamedType("pkg/api/utils.object")
+	if err != nil {
+		return nil, err
+	}
+	pf, err := p.TypesPkg("pkg/encoding/packfile")
+	if err != nil {
+		return nil, err
+	}
+	kindOf := map[int64]string{}
+	for _, n := range []string{"ObjectCommit", "ObjectTable", "ObjectBlock"} {
+		c, ok := pf.Scope().Lookup(n).(*types.Const)
+		if !ok {
+			return nil, &AnchorError{"packfile." + n}
+		}
+		v, _ := constInt(ssa.NewConst(c.Val(), c.Type()))
+		kindOf[v] = n
+	}
+	return func(ci ssa.CallInstruction) string {
+		f := calleeFunc(ci)
+		if f == nil || f.Pkg() == nil || f.Pkg().Path() != "container/list" || !strings.HasPrefix(f.Name(), "Push") {
+			return ""
+		}
+		args := ci.Common().Args
+		v := stripConv(args[len(args)-1])
+		u, ok := v.(*ssa.UnOp)
+		if !ok || !types.Identical(u.Type(), objT) {
+			return ""
+		}
+		al, ok := u.X.(*ssa.Alloc)
+		if !ok {
+			return "?"
+		}
+		for _, ref := range *al.Referrers() {
+			if fa, ok := ref.(*ssa.FieldAddr); ok && structField(fa.X.Type(), fa.Field) == typeField {
+				for _, r2 := range *fa.Referrers() {
+					if st, ok := r2.(*ssa.Store); ok {
+						if k, ok := constInt(st.Val); ok {
+							return kindOf[k]
+						}
+					}
+				}
+			}
+		}
+		return "?"
+	}, nil
+}
+
+func init() {
+	register(&Rule{
+		ID: "C09-h", Template: "T1 must-traverse (the table object is always sent)",
+		Doc: "A commit never arrives without its table object when the sender has it: in every function of pkg/api/utils that queues a table object (PushBack of object{Type: ObjectTable}), each successful return lies behind that push — except on the 'table is not in the local store' edge (errors.Is(err, objects.ErrKeyNotFound)). An early `nothing to send` return (empty table, all blocks common) makes the receiver take the commit for a shallow one: refs are updated, the hole is permanent.",
+		Min: 1,
+		Run: func(p *Program, r *RuleResult) error {
+			kind, err := objectPushKind(p)
+			if err != nil {
+				return err
+			}
+			if _, err := p.SSAFunc("pkg/api/utils.(*ObjectSender).enqueueTable"); err != nil {
+				return err
+			}
+			fns := p.FuncsInPkg("pkg/api/utils")
+			r.Analysed = len(fns)
+			for _, fn := range fns {
+				block := map[ssa.Instruction]bool{}
+				eachCall(fn, func(c ssa.CallInstruction) {
+					if kind(c) == "ObjectTable" {
+						block[c] = true
+					}
+				})
+				if len(block) == 0 {
+					continue
+				}
+				ei := errorResultIndex(fn.Signature)
+				// table absent locally
+				var absent []edge
+				for _, call := range errCalls(fn) {
+					vals := errValuesOfCall(call)
+					if vals == nil {
+						continue
+					}
+					absent = append(absent, testEdges(fn, eofTestsOn(fn, vals, modPath+"/pkg/objects", "ErrKeyNotFound"), true)...)
+				}
+				for i, ret := range returnsOf(fn) {
+					if ei >= 0 {
+						v := retVal(ret, ei)
+						if v != nil && (definitelyNonNilError(v) || nonNilByGuard(fn, ret, v)) {
+							continue
+						}
+					}
+					key := fmt.Sprintf("%s|return#%d", funcName(fn), i)
+					what := "a successful return means the table object was queued"
+					if path, reach := reachAfter(fn, nil, ret, mkCut(absent), block); reach {
+						r.bad(key, p.Rel(ret.Pos()), what, fmtPath("return reachable without queueing the table object (and not on the table-absent edge)", path))
+					} else {
+						r.ok(key, p.Rel(ret.Pos()), what)
+					}
+				}
+			}
+			return nil
+		},
+	})
+
+	register(&Rule{
+		ID: "C09-i", Template: "T3 who-may-write + provenance (what the destination is assumed to have)",
+		Doc: "The sender leaves out only what the destination really has. ObjectSender.commonTables / commonBlocks are filled (a) by the constructor's seeding functions from the tables of the acknowledged common commits themselves — no value read from Commit.Parents flows into a key (a have promises its own table, not its ancestors': they may be shallow); (b) in methods, a table is marked common only after the function that queues its table object succeeded, and a block only right after the block itself was queued. Anything else (e.g. 'not in tablesToSend, so the destination must have it' — false for depth-limited transfers) silently withholds blocks and the receiver cannot complete the table.",
+		Min: 4,
+		Run: func(p *Program, r *RuleResult) error {
+			kind, err := objectPushKind(p)
+			if err != nil {
+				return err
+			}
+			ct, err := p.Field("pkg/api/utils.ObjectSender.commonTables")
+			if err != nil {
+				return err
+			}
+			cb, err := p.Field("pkg/api/utils.ObjectSender.commonBlocks")
+			if err != nil {
+				return err
+			}
+			parents, err := p.Field("pkg/objects.Commit.Parents")
+			if err != nil {
+				return err
+			}
+			fns := p.FuncsInPkg("pkg/api/utils")
+			r.Analysed = len(fns)
+			// table queuers
+			queuers := map[*types.Func]bool{}
+			for _, fn := range fns {
+				isQ := false
+				eachCall(fn, func(c ssa.CallInstruction) {
+					if kind(c) == "ObjectTable" {
+						isQ = true
+					}
+				})
+				if isQ && fn.Object() != nil {
+					if f, ok := fn.Object().(*types.Func); ok {
+						queuers[f] = true
+					}
+				}
+			}
+			if len(queuers) == 0 {
+				return &AnchorError{"function that queues a table object"}
+			}
+			gc := &guardCheck{p: p, pre: newSuccSummary(p, queuers)}
+			// seeding functions: their result is stored into the fields
+			seeders := map[*ssa.Function]*types.Var{}
+			fieldOfMap := func(m ssa.Value) *types.Var {
+				if u, ok := m.(*ssa.UnOp); ok && u.Op == token.MUL {
+					if fa, ok := u.X.(*ssa.FieldAddr); ok {
+						f := structField(fa.X.Type(), fa.Field)
+						if f == ct || f == cb {
+							return f
+						}
+					}
+				}
+				return nil
+			}
+			for _, fn := range fns {
+				for _, b := range fn.Blocks {
+					for _, in := range b.Instrs {
+						st, ok := in.(*ssa.Store)
+						if !ok {
+							continue
+						}
+						fa, ok := st.Addr.(*ssa.FieldAddr)
+						if !ok {
+							continue
+						}
+						f := structField(fa.X.Type(), fa.Field)
+						if f != ct && f != cb {
+							continue
+						}
+						if ex, ok := st.Val.(*ssa.Extract); ok {
+							if call, ok := ex.Tuple.(*ssa.Call); ok {
+								if sc := call.Call.StaticCallee(); sc != nil && len(sc.Blocks) > 0 {
+									seeders[sc] = f
+								}
+							}
+						}
+					}
+				}
+			}
+			for _, fn := range fns {
+				nUpd := 0
+				for _, b := range fn.Blocks {
+					for _, in := range b.Instrs {
+						mu, ok := in.(*ssa.MapUpdate)
+						if !ok {
+							continue
+						}
+						if f := fieldOfMap(mu.Map); f != nil {
+							key := fmt.Sprintf("%s|%s[·]=#%d", funcName(fn), f.Name(), nUpd)
+							nUpd++
+							if f == ct {
+								what := "a table is marked as present at the destination only after its table object was queued"
+								tblPush := map[ssa.Instruction]bool{}
+								eachCall(fn, func(c ssa.CallInstruction) {
+									if kind(c) == "ObjectTable" {
+										tblPush[c] = true
+									}
+								})
+								if len(tblPush) > 0 {
+									// the queueing function itself: after its own push
+									if path, reach := reachAfter(fn, nil, mu, nil, tblPush); reach {
+										r.bad(key, p.Rel(mu.Pos()), what, fmtPath("commonTables is written on a path that has not queued the table object", path))
+									} else {
+										r.ok(key, p.Rel(mu.Pos()), what)
+									}
+								} else if ok, why := gc.check(fn, mu, wrapperDepth); ok {
+									r.ok(key, p.Rel(mu.Pos()), what)
+								} else {
+									r.bad(key, p.Rel(mu.Pos()), what, why)
+								}
+							} else {
+								what := "a block is marked as present at the destination only right after it was queued"
+								block := map[ssa.Instruction]bool{}
+								eachCall(fn, func(c ssa.CallInstruction) {
+									if kind(c) == "ObjectBlock" {
+										block[c] = true
+									}
+								})
+								if path, reach := reachAfter(fn, nil, mu, nil, block); reach || len(block) == 0 {
+									r.bad(key, p.Rel(mu.Pos()), what, fmtPath("commonBlocks is written on a path that queued no block", path))
+								} else {
+									r.ok(key, p.Rel(mu.Pos()), what)
+								}
+							}
+							continue
+						}
+						if f, ok := seeders[fn]; ok {
+							key := fmt.Sprintf("%s|seed %s#%d", funcName(fn), f.Name(), nUpd)
+							nUpd++
+							what := "the common sets are seeded from the acknowledged commits' own tables"
+							viaParents := false
+							for x := range backwardCalls(mu.Key) {
+								switch y := x.(type) {
+								case *ssa.FieldAddr:
+									if structField(y.X.Type(), y.Field) == parents {
+										viaParents = true
+									}
+								case *ssa.Field:
+									if structField(y.X.Type(), y.Field) == parents {
+										viaParents = true
+									}
+								}
+							}
+							if viaParents {
+								r.bad(key, p.Rel(mu.Pos()), what, "the key is derived from Commit.Parents: the table of an ancestor of a common commit is assumed present, but ancestors of a have may be shallow at the destination")
+							} else {
+								r.ok(key, p.Rel(mu.Pos()), what)
+							}
+						}
+					}
+				}
+			}
+			return nil
+		},
+	})
+}
